@@ -71,7 +71,10 @@ func (m *Machine) binop(fr *frame, op token.Token, a, b Value, pos token.Pos) Va
 				}
 				return IntC(cx % cy)
 			}
-			panic(Unsupported{"symbolic integer division"})
+			if op == token.QUO {
+				return IntV{sym.IDiv(x.P, y.P)}
+			}
+			panic(Unsupported{"symbolic integer remainder"})
 		case token.EQL:
 			return boolOf(sym.IntCond(sym.CEq(x.P, y.P)))
 		case token.NEQ:
@@ -404,14 +407,14 @@ func (m *Machine) lookup(fr *frame, x *ssa.Lookup) Value {
 	} else {
 		panic(Unsupported{"string indexing"})
 	}
-	ks, ok := key.(StrV)
-	if !ok || !ks.Known {
+	kk, ok := mapKey(key)
+	if !ok {
 		panic(Unsupported{"map lookup with a non-constant key"})
 	}
 	var val Value
 	found := false
 	if mv, ok := base.(MapV); ok {
-		val, found = mv.M.Vals[ks.S]
+		val, found = mv.M.Vals[kk]
 	} else if !IsNil(base) {
 		panic(Unsupported{"lookup in " + Describe(base)})
 	}
@@ -430,14 +433,38 @@ func (m *Machine) mapUpdate(fr *frame, x *ssa.MapUpdate) {
 	if !ok {
 		m.progPanic(fr, x.Pos(), "assignment to entry in nil map")
 	}
-	ks, ok := m.get(fr, x.Key).(StrV)
-	if !ok || !ks.Known {
+	kk, ok := mapKey(m.get(fr, x.Key))
+	if !ok {
 		panic(Unsupported{"map update with a non-constant key"})
 	}
-	if _, had := mv.M.Vals[ks.S]; !had {
-		mv.M.Keys = append(mv.M.Keys, ks.S)
+	if _, had := mv.M.Vals[kk]; !had {
+		mv.M.Keys = append(mv.M.Keys, kk)
 	}
-	mv.M.Vals[ks.S] = m.get(fr, x.Value)
+	mv.M.Vals[kk] = m.get(fr, x.Value)
+}
+
+// mapKey canonicalises the map keys the interpreter supports: constant strings and integers, pointers
+// (by cell identity) and booleans.
+func mapKey(v Value) (string, bool) {
+	switch k := v.(type) {
+	case StrV:
+		if k.Known {
+			return "s:" + k.S, true
+		}
+	case IntV:
+		if c, ok := k.P.Const(); ok {
+			return fmt.Sprintf("i:%d", c), true
+		}
+	case PtrV:
+		return fmt.Sprintf("p:%d", k.C.ID), true
+	case BoolV:
+		if k.Known {
+			return fmt.Sprintf("b:%v", k.Val), true
+		}
+	case NilV:
+		return "nil", true
+	}
+	return "", false
 }
 
 func (m *Machine) builtin(fr *frame, b *ssa.Builtin, args []Value, call *ssa.Call) Value {
